@@ -148,6 +148,8 @@ def check_program(task):
                 for n in names:
                     sigmas |= set(E[n]) | set(R[n])
                 res["families"] += 1
+                nvars = max([len(s_) for s_ in sigmas] + [0])
+                res.setdefault("family_vars", {})[fam] = nvars
                 goals = []
                 if not any(M.FIELD.match(fd["name"]) for fd in envdecl["fields"]["fields"]):
                     # a rule with empty premise: there is no tuple to label; the generated module re-runs it in every
@@ -244,7 +246,18 @@ def main():
     progs = dict(corpus.programs)
     progs.update(extra)
     for name, p in sorted(progs.items()):
-        for U in ([2] if tier == "quick" else [2, 3]):
+        Us = [2] if tier == "quick" else [2, 3]
+        if tier != "quick" and p.get("kind") == "kernel":
+            # U = 4 for kernels whose relations have arity <= 2: with as many elements as a family has match variables every
+            # equality pattern among the values of a match is covered (the enumeration count of one assignment depends on the
+            # presence of its own tuples only, and the generated code is equivariant under renaming of elements)
+            txt = open(p["eql"]).read()
+            import re as _re
+            ar = [len([a for a in m.group(1).split(",") if a.strip()]) for m in _re.finditer(r"pred\s+\w+\(([^)]*)\)", txt)] + \
+                 [len([a for a in m.group(1).split(",") if a.strip()]) + 1 for m in _re.finditer(r"func\s+\w+\(([^)]*)\)", txt)]
+            if ar and max(ar) <= 2 and "enum" not in txt:
+                Us = [2, 3, 4]
+        for U in Us:
             if p.get("kind") == "repo" and U > 2:
                 continue
             tasks.append({"program": name, "rs": p["rs"], "eql": p["eql"], "U": U, "solver": os.environ.get("VERIF_SOLVER", "kissat"),
@@ -270,6 +283,8 @@ def main():
         "disagreements_checked": sum(r["obligations"] for r in results),
         "samples": [s for r in results for s in r["samples"]][:6] or ["(none)"],
         "families": sum(r["families"] for r in results),
+        "families_with_all_equality_patterns_covered (match variables <= universe)": sum(1 for r in results for f, nv in r.get("family_vars", {}).items() if nv <= r["U"]),
+        "families_by_program_and_universe": len([1 for r in results for f in r.get("family_vars", {})]),
         "solver_queries": sum(r["queries"] for r in results),
         "bounds": {"universe": sorted(set(t["U"] for t in tasks)), "tables": "arbitrary disjoint new/old contents of every relation"},
         "functions_encoded": "every sub-rule function of every rule module of the generated code (real text, parsed on this run)",
